@@ -113,12 +113,17 @@ VerifyNumArgs(c, a, vals) ==       \* "" or error kind
        ELSE IF a.nmax < actual THEN "TooManyValues"
        ELSE ""
 
+\* a value delimiter is a `char`: its UTF-8 encoding is what values are split at
+Utf8Enc(cp) == IF cp < 128 THEN <<cp>>
+               ELSE IF cp < 2048 THEN <<192 + (cp \div 64), 128 + (cp % 64)>>
+               ELSE IF cp < 65536 THEN <<224 + (cp \div 4096), 128 + ((cp \div 64) % 64), 128 + (cp % 64)>>
+               ELSE <<240 + (cp \div 262144), 128 + ((cp \div 4096) % 64), 128 + ((cp \div 64) % 64), 128 + (cp % 64)>>
 \* delimiter handling of react (parser.rs 1015-1036)
 RECURSIVE SplitVals(_, _, _, _, _)
 SplitVals(vals, i, delim, dontDelimit, tidx) ==
   IF i > Len(vals) THEN <<>>
-  ELSE (IF ~Contains(vals[i], <<delim>>) \/ (dontDelimit /\ tidx # -1 /\ tidx <= i - 1)
-        THEN <<vals[i]>> ELSE Split(vals[i], <<delim>>))
+  ELSE (IF ~Contains(vals[i], Utf8Enc(delim)) \/ (dontDelimit /\ tidx # -1 /\ tidx <= i - 1)
+        THEN <<vals[i]>> ELSE Split(vals[i], Utf8Enc(delim)))
        \o SplitVals(vals, i + 1, delim, dontDelimit, tidx)
 
 \* ---- Parser::react (without the leading resolve_pending) ----------------------
